@@ -72,13 +72,16 @@ structure St where
 /-- `SubjectThreads::default()` -/
 def St.init : St := ⟨some [], some [], [], [], [], false⟩
 
-/-- `!p_is_closed()` of entry `u` (the probe's own `is_finished()` is constant false) -/
+/-- the cell of entry `u` still holds its observer (= `!p_is_closed()`: the probe's own
+    `is_finished()` is constant false) -/
 def isOpenIn (slots : List Bool) (u : Nat) : Bool := slots.getD u false
 
 def St.isOpen (s : St) (u : Nat) : Bool := isOpenIn s.slots u
 
-/-- `observers.into_iter().filter(|o| !o.p_is_closed()).for_each(|o| o.p_error(e))`:
-    lazy filter, the slot's `error/complete` takes the observer out, then calls it. -/
+/-- `observers.into_iter().for_each(|o| o.p_error(e))`: every entry is called; the slot's
+    `error/complete` takes the observer out, then calls it — an entry whose cell is empty
+    does nothing.  (Before `fix: Subject::error/complete hand the terminal to every
+    subscriber` a `.filter(|o| !o.p_is_closed())` skipped exactly those entries: same function.) -/
 def termLoop (n : Notif) : List Bool → List Nat → List Bool × List Delivery
   | slots, [] => (slots, [])
   | slots, u :: r =>
@@ -92,7 +95,7 @@ inductive Step where
   | load
   /-- `if let Some(o) = observers.as_mut() { o.iter_mut().for_each(p_next) }` -/
   | bcastNext (v : Val)
-  /-- `if let Some(o) = observers.take() { … filter(!closed).for_each(p_error/p_complete) }` -/
+  /-- `if let Some(o) = observers.take() { o.into_iter().for_each(p_error/p_complete) }` -/
   | bcastTerm (t : Term)
   /-- `self.observers.rc_deref_mut().take();` -/
   | takeObs
